@@ -42,6 +42,34 @@ def first_diff(got, exp):
     return None
 
 
+def witness(asm, prefix, nbytes=0):
+    """one concrete input of a case (free bits 0), for the report"""
+    if not asm:
+        return ''
+    val = {}
+    for a, (c, atoms) in asm.items():
+        val[a] = c            # free atoms are taken as 0
+    if nbytes:
+        octs = []
+        for i in range(nbytes):
+            octs.append(sum(val.get('%s[%d].%d' % (prefix, i, b), 0) << b for b in range(8)))
+        return ' [case e.g. octets %s]' % ' '.join('%02x' % o for o in octs)
+    v = sum(bit << int(a.split('.')[-1]) for a, bit in val.items() if a.startswith(prefix + '.'))
+    return ' [case e.g. %s=0x%x]' % (prefix, v)
+
+
+def over_cases(ip, name, args, judge, prefix, nbytes=0):
+    """run the function under an exact case partition (bitdom.run_split: one case unless the
+    function orders symbolic values) and return the first deviation with a witness"""
+    leaves = bitdom.run_split(ip, name, args)
+    for asm, ret, stores, loads in leaves:
+        S = lambda bits: bitdom.subst_bits(bits, asm)
+        d = judge(ret, stores, loads, S)
+        if d:
+            return d + witness(asm, prefix, nbytes), len(leaves)
+    return None, len(leaves)
+
+
 def check_function(ck, ip, u, name, host_big, tag):
     f = u.fn(name)
     where = cast.where(f)
@@ -54,36 +82,41 @@ def check_function(ck, ip, u, name, host_big, tag):
             W = int(m.group(1))
             pw = ip.tinfo(params[0])[0]
             arg = BV.sym('value', pw)
-            ret, stores, loads = ip.run(name, [arg])
             nb = W // 8
-            exp = []
-            for lane in range(nb):
-                src = nb - 1 - lane
-                exp += list(arg.bits[8 * src:8 * src + 8])
-            exp += [ZERO] * (ret.width - W)
-            d = first_diff(ret.bits, exp)
-            if d is None and (stores or loads):
-                d = 'memory effect in a pure helper'
+
+            def judge(ret, stores, loads, S):
+                exp = []
+                for lane in range(nb):
+                    src = nb - 1 - lane
+                    exp += list(arg.bits[8 * src:8 * src + 8])
+                exp += [ZERO] * (ret.width - W)
+                d = first_diff(ret.bits, S(exp))
+                if d is None and (stores or loads):
+                    d = 'memory effect in a pure helper'
+                return d
+            d, ncase = over_cases(ip, name, [arg], judge, 'value')
             # involution follows from the lane reversal; say so
             return ck.verdict(d is None, rule, key, where,
                               d or 'reverses the low %d octets, upper bits zero (hence an involution on %d-bit values)' % (nb, W))
         m = re.match(r'bf_ref_([usf])(\d+)([nbl])$', name)
         if m:
             kind_, W, order = m.group(1), int(m.group(2)), m.group(3)
-            ret, stores, loads = ip.run(name, [Ptr(('param', 'ptr'), 0, 1)])
-            if not isinstance(ret, BV):
-                return ck.violation(rule, key, where, 'does not return a scalar')
-            exp = expect_ref(W, order, kind_, ret.width, host_big)
-            d = first_diff(ret.bits, exp)
-            want_loads = {(('param', 'ptr'), i) for i in range(W // 8)}
-            if d is None and loads != want_loads:
-                d = 'reads octets %s, expected exactly 0..%d' % (sorted(k[1] for k in loads), W // 8 - 1)
-            if d is None and stores:
-                d = 'writes memory'
-            if d is None and kind_ == 'f' and not ret.isfloat:
-                d = 'result is not the float member'
-            if d is None and kind_ == 's' and not ret.signed:
-                d = 'result is not signed'
+            def judge(ret, stores, loads, S):
+                if not isinstance(ret, BV):
+                    return 'does not return a scalar'
+                exp = expect_ref(W, order, kind_, ret.width, host_big)
+                d = first_diff(ret.bits, S(exp))
+                want_loads = {(('param', 'ptr'), i) for i in range(W // 8)}
+                if d is None and loads != want_loads:
+                    d = 'reads octets %s, expected exactly 0..%d' % (sorted(k[1] for k in loads), W // 8 - 1)
+                if d is None and stores:
+                    d = 'writes memory'
+                if d is None and kind_ == 'f' and not ret.isfloat:
+                    d = 'result is not the float member'
+                if d is None and kind_ == 's' and not ret.signed:
+                    d = 'result is not signed'
+                return d
+            d, ncase = over_cases(ip, name, [Ptr(('param', 'ptr'), 0, 1)], judge, 'ptr', W // 8)
             return ck.verdict(d is None, rule, key, where,
                               d or 'loads octets 0..%d, %s-endian lane map, %s' % (
                                   W // 8 - 1, 'big' if (order == 'b' or (order == 'n' and host_big)) else 'little',
@@ -94,26 +127,29 @@ def check_function(ck, ip, u, name, host_big, tag):
             kind_, W, order = m.group(1), int(m.group(2)), m.group(3)
             ti = ip.tinfo(params[1])
             arg = BV.sym('value', ti[0], ti[1], ti[2])
-            ret, stores, loads = ip.run(name, [Ptr(('param', 'ptr'), 0, 1), arg])
             nb = W // 8
             big = (order == 'b') or (order == 'n' and host_big)
-            d = None
-            want = {}
-            for byte in range(nb):
-                lane = (nb - 1 - byte) if big else byte
-                want[(('param', 'ptr'), byte)] = list(arg.bits[8 * lane:8 * lane + 8])
-            if set(stores) != set(want):
-                d = 'writes octets %s, expected exactly 0..%d' % (sorted(k[1] for k in stores), nb - 1)
-            else:
-                for k_ in sorted(want):
-                    dd = first_diff(stores[k_], want[k_])
-                    if dd:
-                        d = 'octet %d: %s' % (k_[1], dd)
-                        break
-            if d is None and loads:
-                d = 'reads destination memory'
-            if d is None and not (isinstance(ret, Ptr) and ret.base == ('param', 'ptr') and ret.off == nb):
-                d = 'returns %r, expected ptr + %d' % (ret, nb)
+
+            def judge(ret, stores, loads, S):
+                d = None
+                want = {}
+                for byte in range(nb):
+                    lane = (nb - 1 - byte) if big else byte
+                    want[(('param', 'ptr'), byte)] = S(list(arg.bits[8 * lane:8 * lane + 8]))
+                if set(stores) != set(want):
+                    d = 'writes octets %s, expected exactly 0..%d' % (sorted(k[1] for k in stores), nb - 1)
+                else:
+                    for k_ in sorted(want):
+                        dd = first_diff(stores[k_], want[k_])
+                        if dd:
+                            d = 'octet %d: %s' % (k_[1], dd)
+                            break
+                if d is None and loads:
+                    d = 'reads destination memory'
+                if d is None and not (isinstance(ret, Ptr) and ret.base == ('param', 'ptr') and ret.off == nb):
+                    d = 'returns %r, expected ptr + %d' % (ret, nb)
+                return d
+            d, ncase = over_cases(ip, name, [Ptr(('param', 'ptr'), 0, 1), arg], judge, 'value')
             return ck.verdict(d is None, rule, key, where,
                               d or 'stores exactly octets 0..%d (%s-endian), returns ptr+%d' % (
                                   nb - 1, 'big' if big else 'little', nb))
